@@ -11,7 +11,8 @@ CONFIG = {
     "level_text": ("Seeded exploration over file lengths (0, 1, 2..64, 4 KiB +/- 1, 1 MiB - 1, 1 MiB, 1 MiB + 1, 2 MiB, "
                    "2 MiB + 1, 3 MiB + 17), contents (random, zeros, repeated blocks), format subsets (1..6, repeated -h; xxh32 "
                    "at library level) and entry points (create, create -sf, verify, the hash command, verify -dh -co, and the "
-                   "library calls hash_file, hash_data, multiple_format_hash_file, multiple_format_hash_data, "
+                   "library calls hash_file, hash_data, multiple_format_hash_file, multiple_format_hash_data, streaming hashers with "
+                   "intermediate digests, "
                    "bytes_for_hash_string run as a client inside the simulated process), with the simulator deciding the size "
                    "of every read() (full, halves, 1..17-byte reads, ragged) so that both chunk loops iterate from once to "
                    "thousands of times and chunk boundaries fall at arbitrary offsets. Every digest string observed is "
@@ -116,6 +117,10 @@ def generate(rng, tier):
             lib.append(["multi_file", f, sorted(rng.sample(observe.ALL_FORMATS, rng.randint(1, 7)))])
         else:
             lib.append(["multi_data", f, sorted(rng.sample(observe.ALL_FORMATS, rng.randint(1, 7)))])
+    for _ in range(rng.randint(0, 2)):
+        # streaming use of one hasher object: data fed in pieces, the digest of what has been fed so far is asked for
+        # before the first piece, between pieces and at the end
+        lib.append(["stream", rng.choice(files), [rng.choice(observe.ALL_FORMATS), rng.getrandbits(30)]])
     return {"world": env, "ops": ops, "lib": lib, "codec_seed": rng.getrandbits(40)}
 
 
@@ -134,6 +139,24 @@ def _lib_calls(cs, calls, codec_values):
         elif kind == "multi_data":
             with core.R_open(path, "rb") as f:
                 out.append(hasher.multiple_format_hash_data(f.read(), arg))
+        elif kind == "stream":
+            fmt, seed = arg
+            with core.R_open(path, "rb") as f:
+                data = f.read()
+            h = hasher.new_hasher_for_hash_type(fmt)
+            got, pos, i = [], 0, 0
+            if seed % 2:
+                got.append((0, h.string_digest()))
+            while pos < len(data):
+                n = 1 + core.h64(seed, "piece", i) % max(1, min(len(data), 70_000))
+                h.update(data[pos: pos + n])
+                pos = min(len(data), pos + n)
+                i += 1
+                if core.h64(seed, "ask", i) % 3 or pos == len(data):
+                    got.append((pos, h.string_digest()))
+            if not got:
+                got.append((0, h.string_digest()))
+            out.append(got)
         elif kind == "bytes_for":
             out.append(hasher.bytes_for_hash_string(path, arg))
     codec = [hasher.bytes_for_hash_string(s, "c4") for s in codec_values]
@@ -259,6 +282,20 @@ def execute(sc, ctx):
             for fmt in arg:
                 if not compare("lib." + kind, path, fmt, got[fmt], len(arg), multi and kind == "multi_file"):
                     return
+        elif kind == "stream":
+            fmt = arg[0]
+            data = observe.read_bytes(path)
+            for pos, dig in got:
+                ctx.evaluations += 1
+                ctx.state(fmt, "stream", pos == len(data), len(got) > 1)
+                want = observe.digest_bytes(data[:pos], fmt)
+                if dig != want:
+                    ctx.violate({"kind": "wrong-digest", "fmt": fmt, "entry": "lib.streaming", "cause": "value"},
+                                f"streaming {fmt} hasher after {pos} of {len(data)} bytes ({len(got)} digests asked): {dig!r}, "
+                                f"independent digest of those bytes {want!r}")
+                    return
+            if len(got) > 1:
+                ctx.probe("streaming_intermediate_digest")
         elif kind == "bytes_for":
             ctx.evaluations += 1
             if got != observe.raw_of(path, arg):
